@@ -215,7 +215,9 @@ def _ints(a):
 
 
 def drive(recipe):
+    import warnings
     import numpy as np
+    warnings.simplefilter("ignore")      # unbounded inputs (judged OOD by TLC) make trimesh warn about NaN
     from chmpy.crystal.wulff import WulffConstruction
     facets = recipe["facets"]
     q = recipe["Q"]
@@ -313,24 +315,24 @@ def mc_recipes(res):
 
 def run(ctx, explain=False):
     res = ctx.model_check("mc/MC_Wulff.tla", MC_CFG % "code", name="MC_Wulff(named polyhedra, pipeline, scaling)",
-                          timeout=900)
+                          timeout=900, coverage=not ctx.quick)
     from_model = mc_recipes(res)
     if explain:
         bad = tlc.run("mc/MC_Wulff.tla", MC_CFG % "wrong-column", timeout=900)
         print("deviation 'energy taken from another corner of the dual simplex': MC_Wulff violates",
               bad.violated)
-        for line in bad.stdout.splitlines():
-            if line.startswith("/\\ sh =") or line.startswith("/\\ sc =") or line.startswith("/\\ phase ="):
-                print("   ", line)
-    n_named = ctx.pick(76, 380)
-    n_small = ctx.pick(240, 1200)
+        last = [ln for ln in bad.stdout.splitlines()
+                if ln.startswith(("/\\ sh =", "/\\ sc =", "/\\ phase ="))][-3:]
+        print("    last state of TLC's counterexample:", " ".join(last))
+    n_named = ctx.pick(76, 760)
+    n_small = ctx.pick(240, 3000)
     recipes = from_model + named_recipes(ctx.rng, n_named) + generic_recipes(ctx.rng, n_small, 6, 20)
-    recipes += noncentro_recipes(ctx.rng, ctx.pick(24, 200), 8, 24)
+    recipes += noncentro_recipes(ctx.rng, ctx.pick(24, 400), 8, 24)
     if not ctx.quick:
-        recipes += generic_recipes(ctx.rng, 400, 22, 40) + generic_recipes(ctx.rng, 240, 42, 60)
+        recipes += generic_recipes(ctx.rng, 1200, 22, 40) + generic_recipes(ctx.rng, 800, 42, 60)
     traces = pool_map(drive, recipes)
     ctx.validate("trace/Trace_Wulff.tla", traces, consts=CONSTS, nblocks=64,
-                 timeout=ctx.pick(600, 2400))
+                 timeout=ctx.pick(600, 3000))
     stats = [t["meta"].get("stats") for t in traces if t["meta"].get("stats")]
     ctx.notes["facets_max"] = max(s["facets"] for s in stats) if stats else 0
     ctx.notes["traces_with_cut_off_facets"] = sum(1 for s in stats if s["cut_off"])
